@@ -17,6 +17,13 @@ NA = {
 
 # property -> check description; filled in as units are built
 CHECKS = {
+    "C15": {
+        "category": "proof",
+        "technique": "Verus contracts on trait default methods against an environment contract of the required method (ghost written/pending sequences), bodies extracted verbatim; bounded Kani twins",
+        "text": "For every script of writer/reader responses of any length (short count, EINTR, other error) and data of any size, Verus proves on the real bodies: write_all Ok => every byte delivered exactly once in order, Err => a prefix delivered and the error is not a retried EINTR; default_read_exact Ok => buffer equals the next |buf| bytes of the stream and the stream advanced exactly that far, Err => an in-order prefix was delivered. read_to_end, read_to_string and write_fmt are explicitly NOT decided (tool limits measured, see level_note).",
+        "note": "Partial with respect to the property statement: read_to_end/read_to_string/write_fmt are outside both verifiers here (Verus: MaybeUninit/String internals; CBMC: no verdict in 15 min for 3 calls x 3 bytes). Termination under endless EINTR not claimed. Trusted: Verus' prophecy encoding of `buf = &mut tmp[n..]`; restated Error/Errno.",
+        "design_ref": "§4.C15",
+    },
     "C17": {
         "category": "proof",
         "technique": "Verus per-call ring contracts (all u32 counter values, wrap included) on the verbatim bodies + protocol lemmas over the contracts; Kani loop-free twins on the compiled crate via the verif-hooks constructor",
